@@ -112,6 +112,8 @@ func checkC06(w *World, r *Report) {
 	r.Rule("R06.3", "client accepts only 200 / 101", 2)
 	r.Rule("R06.4", "single buffered reader owns the inbound stream", 6)
 	r.Rule("R06.5", "every index / slice expression on peer-supplied text is proven in bounds (linear-inequality entailment over dominating guards)", 2)
+	r.Rule("R06.7", "every explicit panic of the handshake code guards a write to an in-memory buffer, never to a writer that can be the peer's connection", 1)
+	c06NoPanicOnPeerWriteFault(w, r)
 	r.Rule("R06.6", "no header write into the nil map of a freshly built message object (it would panic on the accept path)", 1)
 	c06NoWriteIntoNilHeaderMap(w, r)
 
@@ -605,29 +607,7 @@ func checkC06(w *World, r *Report) {
 		}
 	}
 
-	// ---- R06.5: no peer byte sequence can drive an index out of range in the handshake parsers
-	for fn := range allModuleFuncs(w, w.SSA()) {
-		if fn.Parent() != nil || fn.Pkg == nil || fn.Synthetic != "" {
-			continue
-		}
-		switch fn.Pkg.Pkg.Path() {
-		case modPath + "/internal/socketace", modPath + "/internal/util/mime", modPath + "/internal/version":
-		default:
-			continue
-		}
-		n, issues := checkBounds(fn)
-		if n == 0 {
-			continue
-		}
-		key := "bounds:" + ssaFuncKey(fn)
-		if len(issues) == 0 {
-			r.Hold("R06.5", key, w.Pos(fn.Pos()), fmt.Sprintf("%d index/slice operation(s) proven in bounds from the dominating comparisons and the contracts of strings.Index & co.", n))
-			continue
-		}
-		for _, is := range issues {
-			r.Violate("R06.5", key, w.Pos(is.Instr.Pos()), is.What+": a peer-chosen line can make this expression panic, and nothing between the socket and this code recovers — the process dies")
-		}
-	}
+	ruleHandshakeBounds(w, r, "R06.5")
 
 	// callers of Request.Read / Response.Read pass the BufferedInputConnection's Reader field
 	bic := w.Named("internal/streams", "BufferedInputConnection")
@@ -651,3 +631,30 @@ func checkC06(w *World, r *Report) {
 }
 
 func bicNamed(w *World) *types.Named { return w.Named("internal/streams", "BufferedInputConnection") }
+
+// ruleHandshakeBounds: no peer byte sequence can drive an index out of range in the handshake parsers
+func ruleHandshakeBounds(w *World, r *Report, rule string) {
+	for fn := range allModuleFuncs(w, w.SSA()) {
+		if fn.Parent() != nil || fn.Pkg == nil || fn.Synthetic != "" {
+			continue
+		}
+		switch fn.Pkg.Pkg.Path() {
+		case modPath + "/internal/socketace", modPath + "/internal/util/mime", modPath + "/internal/version":
+		default:
+			continue
+		}
+		n, issues := checkBounds(fn)
+		if n == 0 {
+			continue
+		}
+		key := "bounds:" + ssaFuncKey(fn)
+		if len(issues) == 0 {
+			r.Hold(rule, key, w.Pos(fn.Pos()), fmt.Sprintf("%d index/slice operation(s) proven in bounds from the dominating comparisons and the contracts of strings.Index & co.", n))
+			continue
+		}
+		for _, is := range issues {
+			r.Violate(rule, key, w.Pos(is.Instr.Pos()), is.What+": a peer-chosen line can make this expression panic, and nothing between the socket and this code recovers — the process dies")
+		}
+	}
+
+}
